@@ -126,12 +126,18 @@ def run(ctx):
     acts = ["m_init", "m_top", "m_run", "m_wk", "m_ss_acq", "m_ss_body", "m_ss_rel", "m_cl_body", "m_cl_rel",
             "m_cl_wk", "m_cl_join", "m_cl_rm", "m_cl_end", "s_acq", "s_cs", "s_woke", "s_sel_begin",
             "s_sel_end", "s_post", "e_loop"]
-    ctx.mc(SPEC, "SelectorThread", "MC_SelectorThread.cfg",
-           overrides=ctx.pick({"MaxChg": 2, "MaxEnv": 1}, {"MaxChg": 3, "MaxEnv": 2}),
-           required_actions=acts)
-    ctx.mc(SPEC, "SelectorThread", "MCL_SelectorThread.cfg",
-           overrides=ctx.pick({"MaxChg": 1, "MaxEnv": 1}, {"MaxChg": 2, "MaxEnv": 2}),
-           required_actions=acts)
+    if ctx.quick:
+        # one TLC run: invariants (NoDeadlock covers terminal states too) + liveness on FairSpec
+        ctx.mc(SPEC, "SelectorThread", "MCQ_SelectorThread.cfg", required_actions=acts)
+    else:
+        ctx.mc(SPEC, "SelectorThread", "MC_SelectorThread.cfg", overrides={"MaxChg": 4, "MaxEnv": 3},
+               required_actions=acts)
+        ctx.mc(SPEC, "SelectorThread", "MC_SelectorThread.cfg", overrides={"NF": 3, "MaxChg": 3, "MaxEnv": 2},
+               required_actions=acts)
+        ctx.mc(SPEC, "SelectorThread", "MC_SelectorThread.cfg",
+               overrides={"MaxChg": 3, "MaxEnv": 2, "MaxW": 3, "WFull": 3, "RecvMax": 2}, required_actions=acts)
+        ctx.mc(SPEC, "SelectorThread", "MCL_SelectorThread.cfg", overrides={"MaxChg": 3, "MaxEnv": 2},
+               required_actions=acts)
     ctx._phase("mc", t0)
     t0 = time.time()
     # 2. code -> spec: recorded runs of the real SelectorThread validated by TLC
@@ -141,10 +147,17 @@ def run(ctx):
     ctx._phase("record", t0)
     t0 = time.time()
     # 3. spec -> code: TLC behaviours forced on the real threads
-    k = ctx.pick(150, 3000)
+    k = ctx.pick(240, 6000)
     depth = ctx.pick(100, 160)
     behs = sim_behaviours(ctx, k, depth, '{"close", "atexit"}', ctx.seed + 11)
-    behs += sim_behaviours(ctx, k, depth, "{}", ctx.seed + 12)
+    # every second behaviour is cut before its first shutdown step (a prefix of a behaviour is a
+    # behaviour): the scenario then goes on in free mode and is closed by the epilogue
+    for i in range(0, len(behs), 2):
+        cut = [j for j, (a, s_, t_) in enumerate(behs[i]) if t_["closeCalled"]]
+        if cut and cut[0] > 0:
+            behs[i] = behs[i][:cut[0]]
+    if not ctx.quick:
+        behs += sim_behaviours(ctx, k // 2, depth, "{}", ctx.seed + 12)     # long walks without shutdown
     ctx._phase("simulate", t0)
     t0 = time.time()
     forced = force_behaviours(ctx, behs, 100000)
